@@ -15,6 +15,7 @@ package c14
 
 import (
 	"fmt"
+	"runtime"
 	"sync"
 	"syscall"
 	"unsafe"
@@ -128,7 +129,16 @@ func (a guardAlloc) Allocate(capBytes, maxBytes uint64) experimental.LinearMemor
 	return &guardMem{st: a.st, resv: r, total: total, base: r + uintptr(guardBytes), max: maxBytes}
 }
 
+// reallocYields: scheduler yields inside guardMem.Reallocate (set by the concurrent
+// shared-memory phase only): wazero calls Reallocate while holding the shared memory's
+// lock, so yielding here lets the other goroutines run into the lock - a window that
+// exists anyway is merely widened, by a fixed count.
+var reallocYields int
+
 func (m *guardMem) Reallocate(size uint64) []byte {
+	for i := 0; i < reallocYields; i++ {
+		runtime.Gosched()
+	}
 	m.st.mu.Lock()
 	m.st.Reallocs++
 	if size > m.st.MaxRequest {
